@@ -105,6 +105,26 @@ def g5_reorder(name, data, boxes):
     return res
 
 
+def g5_consistent_deletion(name, data, boxes):
+    """Delete one nested box and shrink the size field of every ancestor: a well-formed tree that lacks a child
+    (tfhd, tfdt, trun, stsd, stts, mdhd, hdlr, tkhd, mvhd, mfhd, senc, ... one at a time)."""
+    res = []
+    for (at, size, hdr, typ, depth) in boxes:
+        if depth == 0:
+            continue
+        m = bytearray(data[:at] + data[at + size:])
+        ok = True
+        for (a2, s2, h2, t2, d2) in boxes:
+            if d2 < depth and a2 <= at and at + size <= a2 + s2:       # an ancestor
+                if h2 != 8 or s2 - size < 8:
+                    ok = False
+                    break
+                m[a2:a2 + 4] = struct.pack(">I", s2 - size)
+        if ok:
+            res.append(("G5/%s/cdel@%d:%s" % (name, at, typ.decode("latin1")), "file", bytes(m)))
+    return res
+
+
 def run(ctx):
     q = ctx.tier == "quick"
     ctx.build_harness()
@@ -130,7 +150,7 @@ def run(ctx):
             boxes = [b for b in boxes if b[4] <= 1][:40]         # big files: top and second level only in the quick tier
         elif len(data) > 60000:
             boxes = boxes[:200]
-        muts = g2_header_mutations(name, data, boxes) + g3_count_inflation(name, data, boxes) + g4_truncations(name, data, boxes) + g5_reorder(name, data, boxes)
+        muts = g2_header_mutations(name, data, boxes) + g3_count_inflation(name, data, boxes) + g4_truncations(name, data, boxes) + g5_reorder(name, data, boxes) + g5_consistent_deletion(name, data, boxes)
         if q and len(data) > 20000:
             muts = [m for i, m in enumerate(muts) if i % 5 == ctx.seed % 5]
         items += muts
@@ -166,7 +186,7 @@ def run(ctx):
                          "G2": "size field of every box in {0,1,7,8,9,true+-1,2^31,2^32-1} and largesize in {0,15,16,2^63}",
                          "G3": "count fields of 16 counted box types set to {0, true-1, true+1, 2^16, 2^31, 2^32-1}",
                          "G4": "truncation at every box boundary +-{0,1,4,8,hdr+4}; every byte for files <= 2 KiB",
-                         "G5": "single deletion and adjacent swap of top-level and second-level boxes",
+                         "G5": "single deletion and adjacent swap of top-level and second-level boxes; deletion of any nested box with the size fields of all its ancestors adjusted",
                          "G6": "%d inputs: every instance of the 134 BoxLayouts.tla box shapes%s" % (g6, "" if q else " and every truncation of the count-2 shape instances"),
                          "bases": "%d files (corpus + seeded slice of G1)" % nsel,
                          "configurations": "DecodeFile / lazy / DecodeFileSR x flags {none, ISM, start-on-moof, both}; DecodeBox / DecodeBoxSR loops; Info at 4 levels; Encode and EncodeSW in both modes with and without trun optimisation",
